@@ -156,6 +156,8 @@ class C01:
                 op["helper"] = rng.choice(HELPERS)
             if k in ("analyze", "helper"):
                 op["partials"] = rng.chance(0.8)
+            if rng.chance(0.25):
+                op["sync_too"] = True
             return op
 
         clients = [{"id": c, "ops": [gen_op() for _ in range(rng.randint(1, 5))]} for c in range(rng.randint(1, 6))]
@@ -369,7 +371,7 @@ class C01:
             return {"name": t.name, "str": ADDR_RE.sub("", str(t)), "path": str(t.path), "globals": dict(t.globals),
                     "matter": dict(t.matter)}
 
-        def sync_op(op):
+        def sync_op(op, env_s=env_s, mains_s=mains_s):
             data = build_data(sc["datas"][op["data"]], None)
             k = op["op"]
 
@@ -503,6 +505,15 @@ class C01:
                 if got != want:
                     self._report(add, sc, op, got, want)
                     return
+                if op.get("sync_too") and op["op"] != "toplevel":
+                    # the SYNCHRONOUS API on the environment the asynchronous tasks are using, called
+                    # while some of them are suspended in the middle of their renders / loads
+                    got2 = _norm(sync_op(op, env_a, mains_a), fs.root)
+                    bump(st, "reach.sync_call_while_async_suspended" if in_flight else "sync_call_on_async_env")
+                    if got2 != want:
+                        self._report(add, sc, {**op, "api": "sync call on the environment shared with suspended async tasks"},
+                                     got2, want)
+                        return
 
         async def root(si=None):
             ts = [loop.create_task(client(c, "ops", si), name="c%d" % c["id"]) for c in sc["clients"]
